@@ -89,7 +89,7 @@ struct HScope { fdnums: Vec<i64>, hist: Vec<Vec<Step>>, th: bool }
 
 fn scope(tier: &str) -> HScope {
     let th = tier == "thorough";
-    HScope { fdnums: if th { vec![0, 1, 2, 3, 63, 64, 1023] } else { vec![0, 1, 3, 64, 1023] }, hist: histories(if th { 4 } else { 3 }), th }
+    HScope { fdnums: if th { vec![0, 1, 2, 3, 63, 64, 1023] } else { vec![0, 1, 3, 64, 1023] }, hist: histories(if th { 5 } else { 3 }), th }
 }
 
 /// items: (target, fd number, worker kind)
@@ -117,7 +117,7 @@ pub fn run_item(tier: &str, idx: usize, only: Option<&Value>) -> MResult<ItemRes
     let flags = flagsets(sc.th, fifo);
     let mut states: BTreeSet<u64> = BTreeSet::new();
     // histories of non-file targets are kept to length <= 1 in the quick tier
-    let maxlen = if sc.th { if matches!(target.as_str(), "f" | "d") { 4 } else { 3 } } else if matches!(target.as_str(), "f" | "d" | "full") { 3 } else { 2 };
+    let maxlen = if sc.th { if matches!(target.as_str(), "f" | "d") { 5 } else { 3 } } else if matches!(target.as_str(), "f" | "d" | "full") { 3 } else { 2 };
     for (hi, h) in sc.hist.iter().enumerate() {
         if h.len() > maxlen { continue; }
         if let Some(o) = only { if o["history_index"].as_u64() != Some(hi as u64) { continue; } }
@@ -210,7 +210,7 @@ pub fn report(tier: &str) -> Report {
     Report {
         level: "model_checking",
         rule: format!("inode types {{file, empty dir, non-empty dir, fifo, symlink handle, char device, socket}} x descriptor numbers {:?} x backends {{openat2, emulated}} x histories = all sequences of <= {} steps (files/directories; one fewer for the other types) over {{rename away, rename another object over the name, unlink, create the name again, exchange with a sibling, move out of the root}} applied between resolve and reopen (non-enabled sequences skipped) x {} flag sets (incl. O_CREAT/O_EXCL/O_TMPFILE) x {{Rust Handle::reopen, C pathrs_reopen}}; expectation = the kernel's own answer for open(/proc/self/fd/<pin>) on a descriptor the harness holds for the same inode; states = distinct (tree, location of the handle's inode); non-trivial = non-empty history, creation flags or descriptor 0/1/2",
-            sc.fdnums, if sc.th { 4 } else { 3 }, flagsets(sc.th, false).len()),
+            sc.fdnums, if sc.th { 5 } else { 3 }, flagsets(sc.th, false).len()),
         assumptions: vec!["the kernel's /proc/self/fd re-open is the reference for 'same inode, requested flags'".into(), "host /proc over-mounts are covered under C06".into()],
         exhaustive: true,
         extra: json!({"histories": sc.hist.len()}),
